@@ -504,7 +504,14 @@ pub struct Report<'a> {
 
 /// Writes the evidence file and the replay file (if any), prints the verdict
 /// lines and returns the process exit code.
-pub fn finish(rep: Report, mut agg: Agg) -> i32 {
+pub fn finish(rep: Report, agg: Agg) -> i32 {
+    let stem = rep.property.to_string();
+    finish_as(rep, agg, &stem)
+}
+
+/// Like [`finish`] but writes the evidence to `evidence/<file_stem>.json`
+/// (used by checks whose evidence file is assembled from several parts).
+pub fn finish_as(rep: Report, mut agg: Agg, file_stem: &str) -> i32 {
     let root = verif_root();
     let distinct = agg.distinct_nontrivial();
     let tier = if rep.tier == "smoke" { "quick" } else { rep.tier };
@@ -567,7 +574,7 @@ pub fn finish(rep: Report, mut agg: Agg) -> i32 {
         "wall_s": rep.wall_s,
         "violations": violations,
     });
-    write_json(&root.join("evidence").join(format!("{}.json", rep.property)), &ev);
+    write_json(&root.join("evidence").join(format!("{file_stem}.json")), &ev);
     println!(
         "{} tier={} seed={} runs={} distinct_nontrivial={} states={} violations={} known={} wall={:.1}s fp={:016x}",
         rep.property,
